@@ -158,10 +158,15 @@ def run(n_hist, seed, length):
                 stats["signatures"].add((var, oh, err_kind(rh)))
                 if len(stats["samples"]) < 3 and oh == "ok":
                     stats["samples"].append({"sender": who, "msg": msg})
+                after = h.call({"op": "dump", "users": []})["ok"]
+                # the monitors judge the implementation's own answers, whether or not the model agrees
+                fs = monitor(su, who, msg, rh, before, after, t, last_nom)
+                for f in fs:
+                    f.update(seed=hs, events=list(events))
+                findings += fs
                 if om != oh:
                     divs.append({"seed": hs, "channel": "outcome", "detail": {"msg": msg, "impl": rh, "model": rm["result"]}, "events": list(events)})
                     break
-                after = h.call({"op": "dump", "users": []})["ok"]
                 if oh == "ok":
                     mh = canon_msgs(rh["ok"])
                     if mh != rm["result"]["ok"]["msgs"]:
@@ -173,10 +178,6 @@ def run(n_hist, seed, length):
                         divs.append({"seed": hs, "channel": "state." + key, "detail": {"model": dump[key], "impl": after[key]}, "events": list(events)})
                         break
                 else:
-                    fs = monitor(su, who, msg, rh, before, after, t, last_nom)
-                    for f in fs:
-                        f.update(seed=hs, events=list(events))
-                    findings += fs
                     if oh == "ok" and var == "transfer_ownership":
                         last_nom = t // NS
                         last_nominee = msg[var]["new_owner"]
